@@ -401,10 +401,17 @@ func initRollingFileLogger(
 		normalMaxLevel = WarnLevel
 	}
 
+	// Without a logger-level layout the appenders format events themselves.
+	layout := f.Layout
+	if layout == nil {
+		layout = &TextLayout{BaseLayout: BaseLayout{FileLineLength: 48}}
+	}
+
 	// Create appenders for the normal log file
 	appenders := []*AppenderRef{
 		{
 			Appender: &RollingFileAppender{
+				Layout:   layout,
 				FileDir:  f.FileDir,
 				FileName: f.FileName,
 				Rotation: f.Rotation,
@@ -421,6 +428,7 @@ func initRollingFileLogger(
 	if f.Separate {
 		appenders = append(appenders, &AppenderRef{
 			Appender: &RollingFileAppender{
+				Layout:   layout,
 				FileDir:  f.FileDir,
 				FileName: f.FileName + ".wf",
 				Rotation: f.Rotation,
